@@ -3,6 +3,7 @@ package props
 import (
 	"database/sql/driver"
 	"fmt"
+	"github.com/tobgu/qframe/config/newqf"
 	"math"
 	"strconv"
 	"strings"
@@ -327,6 +328,26 @@ func c19RoundTrip(t *rapid.T) {
 	tx, err := db.Begin()
 	if err != nil {
 		t.Fatal(err)
+	}
+	// now and then another frame was written before, in the same process, to the same table with the same options, whose
+	// column list reads the same once the names are glued together (["a,b"] next to ["a","b"]): the statement of the
+	// checked write below names the checked frame's columns all the same
+	if len(in.Cols) >= 2 && rapid.IntRange(0, 3).Draw(t, "decoywrite") == 0 {
+		sep := rapid.SampledFrom([]string{",", ", ", ",", " ", "|", "\x00", ""}).Draw(t, "decoysep")
+		names := in.Names()
+		glued := append([]string{names[0] + sep + names[1]}, names[2:]...)
+		data := map[string]interface{}{}
+		for _, n := range glued {
+			data[n] = []int{1}
+		}
+		if dq := qframe.New(data, newqf.ColumnOrder(glued...)); dq.Err == nil {
+			dm, ddb := faults.New()
+			if dtx, err := ddb.Begin(); err == nil {
+				_ = hx.Safely(func() { _ = dq.ToSQL(dtx, d.fns()...) })
+				_ = dtx.Rollback()
+			}
+			dm.Release(ddb)
+		}
 	}
 	// now and then the store refuses one of the rows: a ToSQL that reports success has stored every row (only then can
 	// reading back reproduce the frame), so success is no possible outcome here
